@@ -112,9 +112,18 @@ def run_1090(bindir, script, settle=0.5):
         p.kill()
     out, err = p.communicate(timeout=10)
     srv.stop()
-    printed = [l for l in out.decode("utf-8", "replace").splitlines() if l and not l.startswith(" ")]
+    lines = out.decode("utf-8", "replace").splitlines()
+    printed = [l for l in lines if l and not l.startswith(" ")]
+    # the text printed after each line's hex: the frame's rendering (1090 prints `{frame}` followed by an empty line)
+    blocks, cur = [], None
+    for l in lines:
+        if l and not l.startswith(" "):
+            cur = {"hex": l.lower(), "text": []}
+            blocks.append(cur)
+        elif cur is not None and l:
+            cur["text"].append(l)
     code = p.returncode
-    return {"printed": printed, "alive": 1 if alive else 0, "exit": code if not alive else -1,
+    return {"printed": printed, "blocks": blocks, "alive": 1 if alive else 0, "exit": code if not alive else -1,
             "panic": 1 if b"panicked" in err else 0, "stderr": err.decode("utf-8", "replace")[-400:]}
 
 
